@@ -3,7 +3,8 @@
 //! Programs without the termination-by-construction rule (while(1), unbounded recursion, huge
 //! repeat counts, looping callbacks handed to std.sorted_by_key / min_by_key / max_by_key / map /
 //! filter / any and to the re-entering natives call0 / call1, nested up to 3 native->script
-//! levels) plus ordinary generated programs, each run under a set of budgets.
+//! levels; the natives reached by a CallNative card or as function values through a dynamic call)
+//! plus ordinary generated programs, each run under a set of budgets.
 //! Oracle: an independent per-dispatch counter (hook) never exceeds the budget; a run that does
 //! not finish reports Timeout; and metamorphic: the run with a large budget defines k (its
 //! instruction count) — every budget >= k gives the identical observation, every budget < k gives
@@ -33,6 +34,14 @@ fn closure(id: usize, params: &[&str], body: Vec<Stmt>) -> Expr {
 }
 fn std_call(name: &str, args: Vec<Expr>) -> Expr {
     Expr::Call(format!("std.{}", name), usize::MAX, args)
+}
+/// a native reached by a CallNative card, or as a function value through a dynamic call
+fn native_call(name: &str, args: Vec<Expr>, dynamic: bool) -> Expr {
+    if dynamic {
+        Expr::DynCall(Box::new(Expr::NativeRef(name.into())), args)
+    } else {
+        Expr::CallNative(name.into(), args)
+    }
 }
 
 /// a loop that runs `n` times (None = forever) and bumps the global `ticks`
@@ -92,8 +101,20 @@ fn template(c: &mut Choices) -> (String, Program, u32) {
             kb.push(Stmt::Return(var("v")));
             let key = closure(0, &["k", "v"], kb);
             // the first supplied argument binds to the last declared parameter (key_function)
-            let body = vec![Stmt::SetVar("t".into(), table), Stmt::SetGlobal("r".into(), std_call(which, vec![key, var("t")]))];
-            (format!("std_{}_{}", which, inf), program(body, vec![]), 1)
+            // the library function, or the native under it called directly / as a function value
+            let (style, call) = match c.draw(3) {
+                0 => ("std", std_call(which, vec![key, var("t")])),
+                s => {
+                    let native = match which {
+                        "sorted_by_key" => "__sort",
+                        "min_by_key" => "__min",
+                        _ => "__max",
+                    };
+                    (if s == 1 { "native" } else { "dynnative" }, native_call(native, vec![var("t"), key], s == 2))
+                }
+            };
+            let body = vec![Stmt::SetVar("t".into(), table), Stmt::SetGlobal("r".into(), call)];
+            (format!("{}_{}_{}", style, which, inf), program(body, vec![]), 1)
         }
         6 => {
             // map / filter / any run the callback through DynamicCall (same interpreter entry)
@@ -110,17 +131,20 @@ fn template(c: &mut Choices) -> (String, Program, u32) {
             let mut inner = spin(n, 4);
             inner.push(Stmt::Return(int(7)));
             let inner_c = closure(1, &[], inner);
-            let outer = closure(0, &[], vec![Stmt::Return(Expr::CallNative("call0".into(), vec![inner_c]))]);
-            (format!("call0_nested_{}", inf), program(vec![Stmt::SetGlobal("r".into(), Expr::CallNative("call0".into(), vec![outer]))], vec![]), 2)
+            let (d1, d2) = (c.chance(100), c.chance(100));
+            let outer = closure(0, &[], vec![Stmt::Return(native_call("call0", vec![inner_c], d1))]);
+            (format!("call0_nested{}_{}", if d1 || d2 { "_dyn" } else { "" }, inf), program(vec![Stmt::SetGlobal("r".into(), native_call("call0", vec![outer], d2))], vec![]), 2)
         }
         _ => {
             // three levels: call1 -> sorted_by_key -> key function calling call0 -> spinning closure
             let mut leaf = spin(n, 5);
             leaf.push(Stmt::Return(int(1)));
             let leaf_c = closure(2, &[], leaf);
-            let key = closure(1, &["k", "v"], vec![Stmt::Return(bin(BinOp::Add, var("v"), Expr::CallNative("call0".into(), vec![leaf_c])))]);
-            let outer = closure(0, &["x"], vec![Stmt::SetVar("t".into(), table), Stmt::Return(std_call("sorted_by_key", vec![key, var("t")]))]);
-            (format!("three_levels_{}", inf), program(vec![Stmt::SetGlobal("r".into(), Expr::CallNative("call1".into(), vec![outer, int(0)]))], vec![]), 3)
+            let (d1, d2, d3) = (c.chance(80), c.chance(80), c.chance(80));
+            let key = closure(1, &["k", "v"], vec![Stmt::Return(bin(BinOp::Add, var("v"), native_call("call0", vec![leaf_c], d1)))]);
+            let sort = if d2 { native_call("__sort", vec![var("t"), key], true) } else { std_call("sorted_by_key", vec![key, var("t")]) };
+            let outer = closure(0, &["x"], vec![Stmt::SetVar("t".into(), table), Stmt::Return(sort)]);
+            (format!("three_levels{}_{}", if d1 || d2 || d3 { "_dyn" } else { "" }, inf), program(vec![Stmt::SetGlobal("r".into(), native_call("call1", vec![outer, int(0)], d3))], vec![]), 3)
         }
     }
 }
@@ -162,7 +186,7 @@ impl Property for C03 {
         "C03"
     }
     fn rule(&self) -> &'static str {
-        "case = (program, budget set): program from 9 templates with a finite-or-infinite innermost loop (while(1), recursion, repeat 10^9, looping key functions under std.sorted_by_key/min_by_key/max_by_key, looping callbacks under std.map/filter/any, call0->call0 nesting, call1->sorted_by_key->call0 three native levels) or a generated well-scoped program with re-entering natives; budgets = 3 draws from 1..64, one from 1..20000, and k-1, k, k+1, k/2 around the complete run's instruction count k. Oracles per run: hook counter <= budget; for runs of a finishing program: budget >= k => observation identical to the complete run, budget < k => Timeout (possibly wrapped by the natives it crossed) and host log a prefix of the complete log; the large-budget run of a never-finishing program must itself be Timeout, CallStackOverflow or Stackoverflow. non-trivial = a run re-entered the interpreter through a native and used >= 50% of its budget, or was cut by Timeout; distinct by hash of (program, budgets)"
+        "case = (program, budget set): program from 9 templates with a finite-or-infinite innermost loop (while(1), recursion, repeat 10^9, looping key functions under std.sorted_by_key/min_by_key/max_by_key, looping callbacks under std.map/filter/any, call0->call0 nesting, call1->sorted_by_key->call0 three native levels; each native reached through the library function, a CallNative card, or a dynamic call of the native as a function value) or a generated well-scoped program with re-entering natives; budgets = 3 draws from 1..64, one from 1..20000, and k-1, k, k+1, k/2 around the complete run's instruction count k. Oracles per run: hook counter <= budget; for runs of a finishing program: budget >= k => observation identical to the complete run, budget < k => Timeout (possibly wrapped by the natives it crossed) and host log a prefix of the complete log; the large-budget run of a never-finishing program must itself be Timeout, CallStackOverflow or Stackoverflow. non-trivial = a run re-entered the interpreter through a native and used >= 50% of its budget, or was cut by Timeout; distinct by hash of (program, budgets)"
     }
     fn assumptions(&self) -> Vec<String> {
         vec![
